@@ -115,7 +115,7 @@ impl Property for C16 {
         vec!["oracle: model FK of the inner stack at q' with q'[coupled] = q[coupled] - scaling*q[driven], couplings applied outer-first".into()]
     }
     fn plan(&self, tier: Tier) -> Plan {
-        Plan { workers: tier.pick(4, 16), cases_per_worker: tier.pick(5_000, 62_500), max_shrink_iters: 3000 }
+        Plan { workers: tier.pick(4, 16), cases_per_worker: tier.pick(50_000, 300_000), max_shrink_iters: 3000 }
     }
     fn selftest(&self) -> Result<serde_json::Value, String> {
         crate::selftest::model_vs_recorded()
